@@ -131,8 +131,37 @@ def make_pattern(spec):
     if 'smarts' in spec:
         from chython import smarts
         return smarts(spec['smarts'])
+    if 'qmol' in spec:
+        return query_from_mol(spec['qmol'])
     m, _ = wire.ints_to_mol(spec['mol'], calc=True)
     return m
+
+
+def query_from_mol(d):
+    """A QueryContainer assembled through the public API from a molecule fragment: {'mol': wire ints, 'atoms': [n...] (insertion
+    order), 'bonds': [[n, m]...] (insertion order), 'amarks': [[n, 0|1]...], 'bmarks': [[n, m, 0|1]...], 'any': [n...]}.
+    Atoms become QueryElement.from_atom (element, charge, radical, isotope), atoms listed in 'any' become AnyElement; bonds
+    QueryBond.from_bond; the stereo marks are set as given (they are read relative to the query's own neighbour order)."""
+    from chython import QueryContainer
+    from chython.containers.bonds import QueryBond
+    from chython.periodictable import QueryElement, AnyElement
+    m, _ = wire.ints_to_mol(d['mol'], calc=True)
+    q = QueryContainer('')
+    am = {n: bool(v) for n, v in d.get('amarks', [])}
+    bm = {(n, k): bool(v) for n, k, v in d.get('bmarks', [])}
+    wild = set(d.get('any', []))
+    for n in d['atoms']:
+        a = m._atoms[n]
+        qa = AnyElement() if n in wild else QueryElement.from_atom(a)
+        if n in am:
+            qa.stereo = am[n]
+        q.add_atom(qa, n)
+    for n, k in d['bonds']:
+        qb = QueryBond.from_bond(m._bonds[n][k])
+        if (n, k) in bm or (k, n) in bm:
+            qb.stereo = bm.get((n, k), bm.get((k, n)))
+        q.add_bond(n, k, qb)
+    return q
 
 
 def make_target(ints):
@@ -477,6 +506,52 @@ def ga_line(p, t, af, scope):
             return None
         out += [x, y, b.order, int(bool(b.in_ring))]
     return 'GA ' + ' '.join(map(str, out))
+
+
+def tri(v):
+    return -1 if v is None else int(bool(v))
+
+
+def opt(v):
+    return -1 if v is None else v
+
+
+def gs_line(p, t, af, scope):
+    """GA payload + the query's stereo marks + what the post-filter reads of the target (labels and the stereo tables of the
+    REAL target: `stereogenic_*`, `_stereo_*_terminals`, `_stereo_cis_trans_centers` — property C12's territory, inputs here)"""
+    from chython.periodictable import ExtendedQuery
+    ga = ga_line(p, t, af, scope)
+    if ga is None:
+        return None
+    out = [tri(a.stereo) if isinstance(a, ExtendedQuery) else -1 for a in p._atoms.values()]
+    bm = [(n, m, int(b.stereo)) for n, m, b in bond_list(p) if getattr(b, 'stereo', None) is not None]
+    out.append(len(bm))
+    for n, m, v in bm:
+        out += [n, m, v]
+    for a in t._atoms.values():
+        out += [tri(a.stereo), int(a.atomic_number == 1)]
+    tb = bond_list(t)
+    out.append(len(tb))
+    for x, y, b in tb:
+        out += [x, y, tri(b.stereo)]
+    st = t.stereogenic_tetrahedrons
+    out.append(len(st))
+    for n, order in st.items():
+        out += [n] + L(order)
+    sa, sat = t.stereogenic_allenes, t._stereo_allenes_terminals
+    out.append(len(sa))
+    for c, (n0, n1, n2, n3) in sa.items():
+        t1, t2 = sat[c]
+        out += [c, n0, n1, opt(n2), opt(n3), t1, t2]
+    sc = t.stereogenic_cis_trans
+    out.append(len(sc))
+    for (a, b), (n0, n1, n2, n3) in sc.items():
+        out += [a, b, n0, n1, opt(n2), opt(n3)]
+    for tbl in (t._stereo_cis_trans_terminals, t._stereo_cis_trans_centers):
+        out.append(len(tbl))
+        for n, (a, b) in tbl.items():
+            out += [n, a, b]
+    return 'GS ' + ga[3:] + ' ' + ' '.join(map(str, out))
 
 
 def parse_dicts(body):
@@ -900,6 +975,168 @@ def union(mols):
     return rebuild(out)
 
 
+STEREO_TARGETS = [
+    'F[C@](Cl)(Br)I', 'F[C@@](Cl)(Br)I', 'FC(Cl)(Br)I', 'F[C@H](Cl)Br', 'F[C@@H](Cl)Br', '[H][C@](F)(Cl)Br', 'Cl[C@](F)(I)Br',
+    'C[C@H](N)C(=O)O', 'C[C@@H](O)[C@H](N)C(=O)O', 'O[C@H]1CCCC[C@@H]1N', 'C[C@](F)(Cl)CC[C@@](F)(Cl)C', 'F[C@H](Cl)C[C@H](F)Cl',
+    'F[C@](Cl)(Br)I.F[C@@](Cl)(Br)I', 'F[C@](Cl)(Br)C[C@@](F)(Cl)Br',
+    'F/C=C/F', 'F/C=C\\F', 'FC=CF', 'F/C(Cl)=C/Br', 'F/C(Cl)=C\\Br', 'C/C=C/C=C\\C', 'F/C=C=C=C/F', 'F/C=C=C=C\\F', 'C1CCC/C=C/CC1',
+    'C/C=C/[C@H](F)Cl', 'F/C=C/C=C/F', 'F/C=C/Cl.F/C=C\\Cl', '[H]/C(F)=C/F',
+    'FC=[C@]=CCl', 'FC=[C@@]=CCl', 'FC=C=CCl', 'FC(Br)=[C@]=C(Cl)I', 'FC(Br)=[C@@]=C(Cl)I', 'CC=[C@]=CC', 'CC=[C@]=C(C)N',
+]
+
+STEREO_SMARTS = [
+    # tetrahedron, four listed neighbours (every position of the centre, both marks come from `both_marks`)
+    '[C@]([F])([Cl])([Br])[I]', '[F][C@]([Cl])([Br])[I]', '[Cl][C@]([F])([Br])[I]', '[I][C@]([Br])([Cl])[F]', '[Br][C@]([I])([F])[Cl]',
+    '[A][C@]([A])([A])[A]', '[F][C@]([A])([A])[A]', '[F][C@]([Cl])([A])[A]', '[C@]([F])([Cl])([A])[I]',
+    # three listed neighbours (implicit / explicit hydrogen, or a fourth heavy neighbour that is not listed)
+    '[C@]([F])([Cl])[Br]', '[F][C@]([Cl])[Br]', '[Br][C@]([Cl])[F]', '[A][C@]([A])[A]', '[C@]([C])([N])[C]', '[C][C@]([N])[C]=[O]',
+    '[C][C@]([O])[C@]([N])[C]', '[C][C@]([O])[C@@]([N])[C]', '[O][C@]1[C][C][C][C][C@@]1[N]', '[O][C@]1[C][C][C][C][C@]1[N]',
+    '[C@]([F])([Cl])[C]', '[F][C@]([Cl])[C][C@]([F])[Cl]', '[F][C@]([Cl])[C][C@@]([F])[Cl]', '[C@]([F])([Cl])([Br])[I].[C@@]([F])([Cl])([Br])[I]',
+    # fewer than three listed neighbours: the translation raises (mirrored)
+    '[C@]([F])[Cl]', '[F][C@]', '[C@]',
+    # double bonds
+    '[F]/[C]=[C]/[F]', '[F]/[C]=[C]\\[F]', '[F]\\[C]=[C]/[F]', '[F]\\[C]=[C]\\[F]', '[A]/[C]=[C]/[A]', '[A]/[C]=[C]\\[A]',
+    '[F]/[C]([Cl])=[C]/[Br]', '[Cl][C](/[F])=[C]/[Br]', '[Cl]/[C]([F])=[C]/[Br]', '[F]/[C]=[C]/[A]', '[C]/[C]=[C]/[C]=[C]\\[C]',
+    '[C]/[C]=[C]/[C]=[C]/[C]', '[C]/[C]=[C]/[C]', '[C]/[C]=[C]/[C@]([F])[Cl]', '[F]/[C]=[C]/[Cl].[F]/[C]=[C]\\[Cl]', '[C]1[C][C][C]/[C]=[C]/[C][C]1',
+    # allenes
+    '[F][C]=[C@]=[C][Cl]', '[F][C]=[C@@]=[C][Cl]', '[Cl][C]=[C@]=[C][F]', '[A][C]=[C@]=[C][A]', '[C]=[C@]=[C]', '[F][C]([Br])=[C@]=[C]([Cl])[I]',
+    '[Br][C]([F])=[C@]=[C]([I])[Cl]', '[C][C]=[C@]=[C][C]', '[C][C]=[C@]=[C]([C])[N]',
+]
+
+
+def both_marks(sm):
+    """the SMARTS as written and with every tetrahedral / allene mark inverted"""
+    inv = sm.replace('@@', '\0').replace('@', '@@').replace('\0', '@')
+    return [sm] if inv == sm else [sm, inv]
+
+
+def relabel(ints, atoms='keep', bonds='keep'):
+    """wire ints with the stereo labels of atoms / bonds kept, inverted ('flip': the mirror image for atoms, the E/Z partner
+    for bonds) or removed ('drop')"""
+    def f(v, how):
+        if v < 0 or how == 'keep':
+            return v
+        return -1 if how == 'drop' else 1 - v
+    out = list(ints)
+    i = 1
+    for _ in range(ints[0]):
+        out[i + 6] = f(out[i + 6], atoms)
+        deg = ints[i + 7]
+        for k in range(deg):
+            out[i + 8 + 3 * k + 2] = f(out[i + 8 + 3 * k + 2], bonds)
+        i += 8 + 3 * deg
+    return out
+
+
+def labelled(m):
+    return any(a.stereo is not None for a in m._atoms.values()) or any(b.stereo is not None for _, _, b in m.bonds())
+
+
+def stereo_cut(rng, m):
+    """a query drawn from a labelled molecule: a connected fragment around a labelled atom / double bond, usually with the
+    complete neighbourhood of the labelled elements, atom order and bond order shuffled, some atoms as wildcards, marks random
+    (they are read relative to the query's own neighbour order, so consistent and inverted marks are equally likely)"""
+    lab_atoms = [n for n, a in m._atoms.items() if a.stereo is not None]
+    lab_bonds = [(n, k) for n, k, b in m.bonds() if b.stereo is not None]
+    if not lab_atoms and not lab_bonds:
+        return None
+    core_atoms = set()
+    if lab_atoms and (not lab_bonds or rng.random() < 0.6):
+        c = rng.choice(lab_atoms)
+        core_atoms |= {c} | set(m._bonds[c])
+        for x in list(m._bonds[c]):          # allene centre: the substituents of the terminals
+            if int(m._bonds[c][x]) == 2:
+                core_atoms |= set(m._bonds[x])
+    else:
+        n, k = rng.choice(lab_bonds)
+        core_atoms |= {n, k} | set(m._bonds[n]) | set(m._bonds[k])
+    core_atoms = {x for x in core_atoms if m._atoms[x].atomic_number != 1 or rng.random() < 0.5}
+    if rng.random() < 0.25 and len(core_atoms) > 2:      # an incomplete neighbourhood
+        core_atoms.discard(rng.choice(sorted(core_atoms)))
+    grow = rng.randint(0, 4)
+    frontier = {y for x in core_atoms for y in m._bonds[x]} - core_atoms
+    while grow and frontier:
+        y = rng.choice(sorted(frontier))
+        core_atoms.add(y)
+        frontier |= set(m._bonds[y])
+        frontier -= core_atoms
+        grow -= 1
+    atoms = sorted(core_atoms)
+    rng.shuffle(atoms)
+    bonds = [[n, k] for n, k, _ in m.bonds() if n in core_atoms and k in core_atoms]
+    rng.shuffle(bonds)
+    bonds = [b if rng.random() < 0.5 else b[::-1] for b in bonds]
+    if own_components_count(atoms, bonds) != 1 and rng.random() < 0.8:
+        return None
+    amarks = [[n, rng.randint(0, 1)] for n in atoms if m._atoms[n].stereo is not None and rng.random() < 0.85]
+    if rng.random() < 0.1:
+        cand = [n for n in atoms if m._atoms[n].stereo is None and m._atoms[n].atomic_number == 6]
+        if cand:
+            amarks.append([rng.choice(cand), rng.randint(0, 1)])
+    bmarks = [[n, k, rng.randint(0, 1)] for n, k in bonds if m._bonds[n][k].stereo is not None and rng.random() < 0.85]
+    marked = {n for n, _ in amarks}
+    wild = [n for n in atoms if n not in marked and rng.random() < 0.15]
+    if not amarks and not bmarks:
+        return None
+    return {'qmol': {'mol': wire.mol_to_ints(m), 'atoms': atoms, 'bonds': bonds, 'amarks': amarks, 'bmarks': bmarks, 'any': wild}}
+
+
+def own_components_count(atoms, bonds):
+    adj = {n: {} for n in atoms}
+    for n, k in bonds:
+        adj[n][k] = adj[k][n] = 1
+    return len(set(own_components(adj).values()))
+
+
+def gen_stereo_cases(ctx):
+    """stereo-marked queries (tetrahedron, double bond, allene) against labelled targets, their mirror images / E-Z partners and
+    the unlabelled molecule; labelled MOLECULE patterns against the same targets (molecule matching ignores labels)"""
+    rng, quick = ctx.rng, ctx.quick
+    tg = [(s, molgen.parse(s)) for s in STEREO_TARGETS]
+    tg = [(s, m) for s, m in tg if m is not None]
+    variants = []
+    for s, m in tg:
+        base = wire.mol_to_ints(m)
+        variants.append((s, base))
+        if labelled(m):
+            variants.append((s + ':mirror', relabel(base, atoms='flip')))
+            variants.append((s + ':ez-partner', relabel(base, bonds='flip')))
+        if rng.random() < 0.3:
+            variants.append((s + ':shuffled', wire.mol_to_ints(shuffle_dicts(rng, m))))
+    variants = list({tuple(v): (s, v) for s, v in variants}.values())
+    sms = [x for sm in STEREO_SMARTS for x in both_marks(sm)]
+    for sm in sms:
+        pool = variants if not quick else rng.sample(variants, 14)
+        for s, v in pool:
+            sc = None
+            if rng.random() < 0.1:
+                ids = [v[i] for i in atom_fields(v).values()]
+                sc = sorted(rng.sample(ids, max(1, len(ids) - 1)))
+            yield f'stereo-smarts:{sm}', {'smarts': sm}, v, sc
+    # queries drawn from labelled molecules (corpus + the list above), against the molecule, its mirror image, its E/Z partner
+    # and the unlabelled molecule
+    src = [(s, m) for s, m in tg if labelled(m)]
+    src += [(tag, m) for tag, m in molgen.corpus(rng, 150 if quick else 1200) if labelled(m) and len(m) <= 45]
+    src += [(tag, m) for tag, m in molgen.handmade() if labelled(m)]
+    n_cut = 70 if quick else 700
+    for _ in range(n_cut):
+        tag, m = rng.choice(src)
+        spec = stereo_cut(rng, m)
+        if spec is None:
+            continue
+        base = wire.mol_to_ints(m)
+        alts = [base, relabel(base, atoms='flip'), relabel(base, bonds='flip'), relabel(base, atoms='drop', bonds='drop')]
+        for v in ([base] + rng.sample(alts[1:], 1) if quick else alts):
+            yield f'stereo-cut:{tag}', spec, v, None
+    # labelled molecules as patterns: labels take no part in `Element.__eq__` / `Bond.__eq__`
+    for s, m in (src[:len(tg)] if not quick else rng.sample(src[:len(tg)], 10)):
+        base = wire.mol_to_ints(m)
+        sub = m.substructure(connected_cut(rng, m, rng.randint(2, len(m))), recalculate_hydrogens=False)
+        for pm in (base, wire.mol_to_ints(sub)):
+            for v in (base, relabel(base, atoms='flip'), relabel(base, bonds='flip')):
+                yield f'ops:stereo-mol:{s}', {'mol': pm}, v, None
+
+
 def gen_cases(ctx):
     """yields (tag, pattern_spec, target_ints, scope). Filter flag is varied by the caller."""
     rng = ctx.rng
@@ -1298,6 +1535,8 @@ def gen_cases(ctx):
         atoms = connected_cut(rng, tm, rng.randint(3, 8))
         sub, _ = molgen.renumber(rng, tm.substructure(atoms, recalculate_hydrogens=False))
         yield 'rings:cut', {'mol': wire.mol_to_ints(sub)}, wire.mol_to_ints(tm), None
+    # S. stereo
+    yield from gen_stereo_cases(ctx)
 
 
 # ------------------------------------------------------------------------------------------------
@@ -1339,6 +1578,7 @@ def stream_get_mapping(ctx):
     from chython.algorithms.isomorphism import _compile_query
     lines, meta = [], []
     seen_lines = set()
+    stereo_lines = set()
     t_cache = {}
     for tag, pspec, tints, scope in gen_cases(ctx):
         key = target_key(tints)
@@ -1352,9 +1592,7 @@ def stream_get_mapping(ctx):
         except Exception as e:  # SMARTS the reader rejects: not this property's concern
             ctx.dist('pattern-rejected:' + type(e).__name__)
             continue
-        if is_query(p) and has_query_stereo(p):
-            ctx.dist('skipped:query-stereo (outside the model)')
-            continue
+        stereo_q = is_query(p) and has_query_stereo(p)
         if len(p._atoms) == 0:
             continue
         inp = {'pattern': pspec, 'target': tints, 'scope': scope}
@@ -1387,14 +1625,20 @@ def stream_get_mapping(ctx):
                              f'{len(ra) if ra is not None else "-"} mappings, python path {len(rr)}', dict(inp, accelerated=True))
         for af, st, r in ((0, st0, r0), (1, st1, r1)):
             line, nontrivial = gm_line(p, t, af, scope)
-            ga = ga_line(p, t, af, scope)
+            # queries: the whole `QueryIsomorphism.get_mapping` incl. its stereo post-filter (GS); molecules: GA
+            ga = gs_line(p, t, af, scope) if is_query(p) else ga_line(p, t, af, scope)
             if ga is not None:
                 line = ga  # compatibility evaluated by the model from attributes, not by the real __eq__
+            elif stereo_q:
+                ctx.dist('skipped:query-stereo with a pattern class unknown to the model')
+                continue
             else:
                 ctx.dist('compat:table-mode (pattern class unknown to the model)')
             if line in seen_lines:
                 continue
             seen_lines.add(line)
+            if stereo_q:
+                stereo_lines.add(line)
             lines.append(line)
             meta.append(('GM', tag, inp, af, st, r, nontrivial, r0 if st0 == 'ok' else None))
         # the private linearisation: relational check of the real output + literal comparison (informational)
@@ -1437,9 +1681,22 @@ def stream_get_mapping(ctx):
                 disagree(ctx, 'get_mapping/wire', f'{tag}: driver says {ans}', inp)
                 continue
             real_st = 'ok' if st == 'ok' else 'crash'
+            if mst == 'raise':   # the post-filter raised: the exception class must be the same one
+                mst = 'crash'
+                cls = ans.split()[1]
+                cls = {'StopIteration': 'RuntimeError'}.get(cls, cls)   # PEP 479: StopIteration inside a generator
+                if st != 'crash:' + cls:
+                    disagree(ctx, 'get_mapping/stereo-filter-outcome', f'{tag}: real {st}, model raises {cls}', inp)
+                    continue
             if mst != real_st:
                 disagree(ctx, 'get_mapping/outcome', f'{tag}: real {st}, model {mst}', inp)
                 continue
+            if line.startswith('GS '):
+                programs.add('QueryIsomorphism.get_mapping stereo post-filter')
+                ctx.dist('stereo-filter:' + ('no-marks' if line not in stereo_lines else
+                                             'raised' if mst != 'ok' else
+                                             'kept-all' if flags.get('pre') == flags.get('n') else
+                                             'removed-all' if flags.get('n') == '0' else 'removed-some'))
             if mst != 'ok':
                 ctx.dist('outcome:' + st)
                 continue
@@ -1462,7 +1719,11 @@ def stream_get_mapping(ctx):
                 sets_r = sorted(tuple(sorted(m.values())) for m in r)
                 sets_m = sorted(tuple(sorted(m.values())) for m in ms)
                 inside = r_unf is None or all(m in canon(r_unf) for m in canon(r))
-                if sets_r != sets_m or not inside:
+                if line.startswith('GS ') and flags.get('pre') != flags.get('n') and canon(r) != canon(ms):
+                    # the `seen` filter runs BEFORE the stereo test: which image sets survive depends on the representative
+                    # the search yields first, so here the mappings themselves are compared
+                    disagree(ctx, 'get_mapping/stereo-filtered-multiset', f'{tag}: real {len(r)} mappings, model {len(ms)}', inp)
+                elif sets_r != sets_m or not inside:
                     disagree(ctx, 'get_mapping/filtered-image-sets', f'{tag}: real image sets {len(sets_r)}, model {len(sets_m)}, '
                                                                       f'subset-of-unfiltered={inside}', inp)
                 else:
